@@ -101,6 +101,7 @@ func verifMgrCheck(m *manager, want int, label string) {
 //verif:bounds loop counts a,b,c in [1,4]; balancing mode switched or not; go poll.Wait() run at once
 //verif:param 1 4
 //verif:loop 20
+//verif:replay interp
 func verifHarness_C18_reconfig(a int) {
 	verifMgrN = 0
 	m := newManager(a)
